@@ -52,29 +52,28 @@ def run(ctx):
             ctx.bad("R08.1", "%s|signature" % f.name, "update takes (value option, ttl option, remove flag)", f.where(), str(ptys))
             continue
         pr, pt, pv = p_remove[0], p_ttl[0], p_val[0]
-        for p in enum_paths(f):
-            atoms = path_atoms(f, p)
-            rem = [a[2] for a in atoms if a[0] == "bool" and a[1] == ("param", pr)]
-            ttl = [a[2] for a in atoms if a[0] == "enum" and a[1] == ("param", pt)]
-            val = [a[2] for a in atoms if a[0] == "enum" and a[1] == ("param", pv)]
-            on_path = [x for x in stores if x[0] in p]
-            exp_w = [x for x in on_path if x[2] == ("field", ("param", 1), L.EXP)]
-            val_w = [x for x in on_path if x[2][0] == "field" and x[2][1] == ("param", 1) and x[2][2] not in (L.EXP,)]
-            other = [x for x in val_w if x[2][2] in (L.SOFT, L.ID)]
+        calc_stop = lambda n_: n_.endswith("::calculate_expiry") or (F.fns.get(n_) is not None and F.fns[n_].rec.get("ret") == "std::time::SystemTime")
+        for p in ipaths(F, f, stop=calc_stop, depth=2):
+            rem = [a[2] for a in p.atoms if a[0] == "bool" and a[1] == ("param", pr)]
+            tv_ = p.variant_of(("param", pt))
+            vv_ = p.variant_of(("param", pv))
+            exp_w = [x for x in p.stores if x[0] == ("field", ("param", 1), L.EXP)]
+            val_w = [x for x in p.stores if x[0][0] == "field" and x[0][1] == ("param", 1) and x[0][2] not in (L.EXP,)]
+            other = [x for x in val_w if x[0][2] in (L.SOFT, L.ID)]
             r = rem[0] if rem else None
-            t = ttl[0] if ttl else None
-            v = val[0] if val else None
+            t = tv_ if tv_ in (("Some",), ("None",)) else None
+            v = vv_ if vv_ in (("Some",), ("None",)) else None
             rows[(r, t, v)] = (len(exp_w), len(val_w))
             if other:
-                bad.append("update writes %s" % other[0][2][2])
+                bad.append("update writes %s" % other[0][0][2])
             if v is None:
                 bad.append("value option not examined on a path")
                 continue
             if r is True:
-                if not (len(exp_w) == 1 and exp_w[0][3][0] == "agg" and exp_w[0][3][2] == "None"):
+                if not (len(exp_w) == 1 and exp_w[0][1][0] == "agg" and exp_w[0][1][2] == "None"):
                     bad.append("remove flag set: expiry must become None")
             elif r is False and t == ("Some",):
-                okw = len(exp_w) == 1 and exp_w[0][3][0] == "agg" and exp_w[0][3][2] == "Some" and mentions(exp_w[0][3], lambda s: s == ("field", ("variant", ("param", pt), "Some"), "0"))
+                okw = len(exp_w) == 1 and exp_w[0][1][0] == "agg" and exp_w[0][1][2] == "Some" and mentions(exp_w[0][1], lambda s_: s_ == ("field", ("variant", ("param", pt), "Some"), "0"))
                 if not okw:
                     bad.append("ttl given: expiry must become Some(now + that ttl)")
             elif r is False and t is not None:
@@ -82,14 +81,13 @@ def run(ctx):
                     bad.append("no ttl requested but the expiry is rewritten")
             else:
                 bad.append("remove flag / ttl not examined on a path")
-            vw = [x for x in val_w if x[2][2] not in (L.SOFT, L.ID)]
+            vw = [x for x in val_w if x[0][2] not in (L.SOFT, L.ID)]
             if v == ("Some",):
-                if not (len(vw) == 1 and vw[0][3] == ("field", ("variant", ("param", pv), "Some"), "0")):
+                if not (len(vw) == 1 and vw[0][1] == ("field", ("variant", ("param", pv), "Some"), "0")):
                     bad.append("value given: the stored value must become exactly that value")
             elif vw:
                 bad.append("no value given but the stored value is rewritten")
-            ret = path_return(f, p, atoms)
-            if ret != ("field", ("param", 1), L.EXP):
+            if p.ret != ("field", ("param", 1), L.EXP):
                 bad.append("update must report the resulting expiry")
         ctx.analysed["paths"] += len(rows)
         ctx.check(not bad and len(rows) >= 6, "R08.1", "%s|fieldwise-update-table" % f.name,
@@ -339,10 +337,11 @@ def run(ctx):
     W = c11.find_worker(ctx, A)
     if W is not None:
         okf = False
-        for b, t in W.calls():
-            if t["res"] == "item" and t.get("rlocal"):
-                args = [W.op_origin(a) for a in t["args"]]
-                ids = [a for a in args if a[0] == "field" and a[1][0] == "variant" and a[1][2] == "UpdateWeight"]
+        for p_ in c11.worker_paths(ctx, A, W):
+            for e in p_.events:
+                if e.log or not (e.t["res"] == "item" and e.t.get("rlocal")):
+                    continue
+                ids = [a for a in e.args if a[0] == "field" and a[1][0] == "variant" and a[1][2] == "UpdateWeight"]
                 if len(ids) == 2 and [a[2] for a in ids] == ["0", "1"]:
                     okf = True
         ctx.check(okf, "R08.4", "%s|worker-applies-id-weight" % W.name, "the worker applies UpdateWeight(id, w) as update(id, w), payloads in order", W.where())
